@@ -49,6 +49,7 @@ ASSUMPTIONS = [
     "fake transports: after the endpoint asked to close its transport no further octets are delivered (as Twisted's loseConnection/asyncio's close stop reading)",
     "ws:// URLs only for the endpoint tests (no TLS machinery); wss:// only for request construction (Host port default 443)",
     "replays of client cases re-inject the recorded 16-byte nonce through os.urandom",
+    "scope of the escaped-exception monitor = the opening handshake: an exception raised by the frame parser (processData in the traceback) on octets that FOLLOW a completed handshake is counted (post_handshake_frame_escapes_out_of_scope) and left to C02/C12/C16",
 ]
 DECIDING = {"server_must_accept_opened": 200, "server_must_reject_refused": 200, "server_reject_classes": 15, "server_reject_mutations": 25,
             "client_must_accept_opened": 100, "client_must_reject_refused": 100, "client_reject_classes": 10, "client_reject_mutations": 20,
@@ -1073,9 +1074,14 @@ def judge(role, case, ep, w, R, fw, data, verdict, ocfg, oht, t_fed, extra_post)
         R.count("hostile_inputs_monitored")
     if esc:
         for e in esc:
+            if any(fr.name == "processData" for fr in traceback.extract_tb(e.exc.__traceback__)):
+                # raised by the FRAME parser on octets that followed a completed handshake (e.g. a mutated trailing frame): the
+                # subject of C02/C12/C16, not of the opening handshake
+                R.count("post_handshake_frame_escapes_out_of_scope")
+                continue
             viol(escape_key(role, e.exc), "exception reached the networking framework (%s): %r" % (e.where, e.exc),
                  traceback="".join(traceback.format_exception(type(e.exc), e.exc, e.exc.__traceback__))[-1500:])
-        R.seen("escaped_exception_types", type(esc[0].exc).__name__)
+            R.seen("escaped_exception_types", type(e.exc).__name__)
         return True      # the framework tore the connection down: nothing further to compare
     opened = _opened(ep)
     out = bytes(ep.all_out)
